@@ -49,12 +49,14 @@ def _cotenants(rng, nmax):
 def _band_calls(fns, tier):
     """Helper calls along the near-diagonal band s = n - delta, delta =
     1..6, where the unit count is large (beyond 255) and recomputation is
-    still needed: every n in 250..330 (quick) / 250..360 and a sample up to
-    700 (thorough).  They follow the sweep in the same process, so the memo
+    still needed: every n in 250..330 and 560, 700 (quick) / 250..360 and a
+    sample up to 1025 (thorough).  They follow the sweep in the same process, so the memo
     table already holds the small-s entries of the neighbouring n."""
     ns = list(range(250, 331 if tier == "quick" else 361))
     if tier == "thorough":
-        ns += [420, 421, 511, 512, 513, 600, 699, 700]
+        ns += [420, 421, 511, 512, 513, 600, 699, 700, 1023, 1025]
+    else:
+        ns += [560, 700]
     ops = []
     for n in ns:
         for k in (1, 2, 5):
